@@ -107,9 +107,9 @@ func (p *streamstatsProcessor) Process(iqr *iqr.IQR) (*iqr.IQR, error) {
 		knownValues[resultCol] = make([]sutils.CValueEnclosure, iqr.NumberOfRecords())
 	}
 
+	// p.currentBucketKey and p.currentIndex carry over from the previous batch: the rows
+	// of one input arrive in several batches, and a batch boundary is not a reset point.
 	bucketKey := ""
-	p.currentBucketKey = bucketKey
-	p.currentIndex = 0
 
 	for i := 0; i < iqr.NumberOfRecords(); i++ {
 		record := make(map[string]interface{})
